@@ -11,6 +11,11 @@ except Exception:
     pass
 
 
+def LIM(L):
+    """loop budget: the conversions are quadratic in the length (digit-serial arithmetic per symbol)"""
+    return 100 * (L + 8) ** 2 + 10 ** 6
+
+
 def _bits_ok(got, exp):
     return U.same_ints(got, exp)
 
@@ -27,18 +32,18 @@ def check_bits(r, bits, containers=('list', 'numpy')):
         r.nontriv += 1
     for cont in containers:
         arr = list(bits) if cont == 'list' else np.array(bits, dtype=int)
-        st, s, _ = brun(dsw.bit_to_number, arr, is_string=True)
+        st, s, _ = brun(dsw.bit_to_number, arr, is_string=True, lim=LIM(L))
         r.trans += 1
         r.evals += 1
         if st != 'ok' or s != str(val):
             r.v('C16|bit_to_number|str-path|%s' % cont, 'bits', case, str(val)[:80], s if st == 'ok' else st)
         if cont == 'list' or val < 2 ** 62:
-            st, n, _ = brun(dsw.bit_to_number, arr, is_string=False)
+            st, n, _ = brun(dsw.bit_to_number, arr, is_string=False, lim=LIM(L))
             r.trans += 1
             if st != 'ok' or isinstance(n, str) or int(n) != val:
                 r.v('C16|bit_to_number|int-path|%s' % cont, 'bits', case, str(val)[:80], str(n)[:80] if st == 'ok' else st)
     for num, tag in ((str(val), 'str'), (val, 'int')):
-        st, back, _ = brun(dsw.number_to_bit, decimal_number=num, bit_length=L)
+        st, back, _ = brun(dsw.number_to_bit, decimal_number=num, bit_length=L, lim=LIM(L))
         r.trans += 1
         r.evals += 1
         if st != 'ok' or not _bits_ok(back, bits):
@@ -59,8 +64,8 @@ def check_dna(r, s):
     r.states += 1
     if L > 0 and s.strip('A') != '' and s[0] == 'A':
         r.nontriv += 1
-    st, a, _ = brun(dsw.dna_to_number, dna_sequence=s, is_string=True)
-    st2, b, _ = brun(dsw.dna_to_number, dna_sequence=s, is_string=False)
+    st, a, _ = brun(dsw.dna_to_number, dna_sequence=s, is_string=True, lim=LIM(2 * L))
+    st2, b, _ = brun(dsw.dna_to_number, dna_sequence=s, is_string=False, lim=LIM(2 * L))
     r.trans += 2
     r.evals += 1
     if st != 'ok' or a != str(val):
@@ -68,7 +73,7 @@ def check_dna(r, s):
     if st2 != 'ok' or isinstance(b, str) or int(b) != val:
         r.v('C16|dna_to_number|int-path', 'dna', case, str(val)[:80], str(b)[:80] if st2 == 'ok' else st2)
     for num, tag in ((str(val), 'str'), (val, 'int')):
-        st, back, _ = brun(dsw.number_to_dna, decimal_number=num, dna_length=L)
+        st, back, _ = brun(dsw.number_to_dna, decimal_number=num, dna_length=L, lim=LIM(2 * L))
         r.trans += 1
         r.evals += 1
         if st != 'ok' or back != s:
